@@ -11,7 +11,7 @@ use reval::expr::Index;
 use reval::prelude::*;
 use std::collections::BTreeMap;
 
-const KEYS: [&str; 16] = ["a", "A", "a_", "aa", "facts", "b", "ab", "Facts", "a1", "x", "i1_0", "d2_", "f1_5", "0", "1", "10"];
+const KEYS: [&str; 20] = ["a", "A", "a_", "aa", "facts", "b", "ab", "Facts", "a1", "x", "i1_0", "d2_", "f1_5", "len", "length", "keys", "first", "0", "1", "10"];
 
 #[derive(Clone, Debug)]
 enum Step {
@@ -334,7 +334,7 @@ fn random_bundle(bytes: &[u8]) -> Bundle {
     let mut m = BTreeMap::new();
     for _ in 0..n {
         let depth = 1 + d.below(3) as u32;
-        m.insert(d.pick(&KEYS[..13]).to_string(), gen_tree(&mut d, depth, &mut counter));
+        m.insert(d.pick(&KEYS[..17]).to_string(), gen_tree(&mut d, depth, &mut counter));
     }
     let input = Value::Map(m.clone());
     // symbols: mostly the same names as the fields, same shape, other leaves; sometimes absent
@@ -357,7 +357,7 @@ fn random_bundle(bytes: &[u8]) -> Bundle {
         }
         // mostly resolving paths: an existing root, steps that follow the data (a deviation once in ten)
         let keys: Vec<&String> = m.keys().collect();
-        let name = if d.below(10) == 9 { d.pick(&KEYS[..13]).to_string() } else { keys[d.below(keys.len())].clone() };
+        let name = if d.below(10) == 9 { d.pick(&KEYS[..17]).to_string() } else { keys[d.below(keys.len())].clone() };
         let mut cur = m.get(&name);
         let mut steps = vec![];
         for _ in 0..d.below(4) {
@@ -491,13 +491,13 @@ fn random_names(bytes: &[u8]) -> NameCase {
 fn check_names(c: &NameCase) -> Verdict {
     let mut symbols = BTreeMap::new();
     for s in &c.symbols {
-        symbols.insert(s.clone(), Value::String(format!("symbol#{s}")));
+        symbols.insert(s.clone(), crate::pool::map(&[("v", Value::String(format!("symbol#{s}"))), ("l", Value::Vec(vec![Value::Int(1)]))]));
     }
     // expected table after the later re-registration
     let mut expected = symbols.clone();
     let mut second: Vec<(String, Value)> = vec![];
     for s in &c.reregistered {
-        second.push((s.clone(), Value::String(format!("symbol#{s}#again"))));
+        second.push((s.clone(), crate::pool::map(&[("v", Value::String(format!("symbol#{s}#again"))), ("l", Value::Vec(vec![Value::Int(2)]))])));
     }
     for i in 0..c.filler {
         second.push((format!("filler{i}"), Value::Int(i as i128)));
@@ -511,8 +511,20 @@ fn check_names(c: &NameCase) -> Verdict {
     }
     // an input that also has fields of the same names: symbols and fields must not be confused
     let input = Value::Map(NAMES.iter().map(|n| (n.to_string(), Value::String(format!("field#{n}")))).collect());
-    for (is_sym, name) in &c.lookups {
-        let e = if *is_sym { Expr::symbol(name) } else { Expr::func(name.clone(), Expr::value(1)) };
+    for (li, (is_sym, name)) in c.lookups.iter().enumerate() {
+        // a symbol is looked up whole, or through a field step / a field and a position step
+        let stepped = li % 3;
+        let e = if *is_sym {
+            match stepped {
+                0 => Expr::symbol(name),
+                1 => Expr::index(Expr::symbol(name), Index::Map("v".into())),
+                _ => Expr::index(Expr::index(Expr::symbol(name), Index::Map("l".into())), Index::Vec(0)),
+            }
+        } else {
+            Expr::func(name.clone(), Expr::value(1))
+        };
+        // where the rule is added relative to the registrations: last, between the first and the later registration, first
+        let rule_position = (li + c.filler) % 3;
         let case = EvalCase { expr: e, facts: input.clone(), fns: fns.clone(), symbols: symbols.clone() };
         let r = match crate::core::catch(|| {
             if second.is_empty() {
@@ -522,8 +534,15 @@ fn check_names(c: &NameCase) -> Verdict {
                 let spec = crate::probe::SetSpec { rules: vec![("r".into(), case.expr.clone())], fns: fns.clone(), symbols: BTreeMap::new(), suspend: 0 };
                 let _ = spec;
                 let mut b = ruleset();
+                let the_rule = || Rule::new("r", BTreeMap::new(), case.expr.clone());
+                if rule_position == 2 {
+                    b = b.with_rule(the_rule()).expect("rule");
+                }
                 for (k, v) in &symbols {
                     b = b.with_symbol(k, v.clone());
+                }
+                if rule_position == 1 {
+                    b = b.with_rule(the_rule()).expect("rule");
                 }
                 b = b.with_symbols(Symbols::from(second.clone())).expect("with_symbols");
                 for (name, fs) in &fns {
@@ -538,7 +557,7 @@ fn check_names(c: &NameCase) -> Verdict {
                         })
                         .expect("function");
                 }
-                let rs = b.with_rule(Rule::new("r", BTreeMap::new(), case.expr.clone())).expect("rule").build();
+                let rs = if rule_position == 0 { b.with_rule(the_rule()).expect("rule").build() } else { b.build() };
                 let mut out = crate::core::block_on(rs.evaluate_value(&case.facts)).expect("evaluate_value");
                 out.pop().expect("one outcome").value
             }
@@ -548,7 +567,17 @@ fn check_names(c: &NameCase) -> Verdict {
         };
         let ok = if *is_sym {
             match (expected.get(name), &r) {
-                (Some(want), Ok(v)) => same_value(v, want, true),
+                (Some(want), Ok(v)) => {
+                    let want = match (stepped, want) {
+                        (1, Value::Map(m)) => m.get("v").cloned().unwrap_or(Value::None),
+                        (2, Value::Map(m)) => match m.get("l") {
+                            Some(Value::Vec(l)) => l.first().cloned().unwrap_or(Value::None),
+                            _ => Value::None,
+                        },
+                        (_, w) => w.clone(),
+                    };
+                    same_value(v, &want, true)
+                }
                 (None, Err(reval::Error::InvalidSymbol(n))) => n == name,
                 _ => false,
             }
